@@ -1,11 +1,18 @@
 import Mdsort.Proofs.WorldOwn
+import Mdsort.Proofs.PartiesWinner
+import Mdsort.Proofs.PartiesExactly
+import Mdsort.Proofs.PartiesWitness
 
 /-!
 # C17 - concurrent runs on the same maildirs neither lose nor duplicate messages
 
 Other parties (another mdsort, a mail client) influence a run only through the results of its
 calls.  `runOracle` gives every call an ARBITRARY result, so a statement proved for every result
-function holds under every interleaving with any number of parties.
+function holds under every interleaving with any number of parties (first part).
+
+The second part states the property on the explicit model of several parties interleaving on ONE
+abstract file system (`Model/Parties.lean`): `runSched s0 sched` executes, for each index in the
+schedule, the next call of that party on the shared file system as it is at that moment.
 -/
 
 namespace Mdsort.Props
@@ -29,5 +36,172 @@ theorem C17_loser_reports_error (env : PEnv) (mh : Match) (st : ExecSt) (orc : N
     (hlost : ∀ i d1 n1 d2 n2, orc i (.renameat d1 n1 d2 n2) = .err "ENOENT") :
     (runOracle orc (execOne env mh st) 0 []).1.2 = true :=
   Proofs.lost_race_is_error env mh st orc hty hlost
+
+/-! ## several parties on one file system, all schedules -/
+
+/-- Single winner.  For every entry `x` (directory, name) - in particular the source name of a
+message - and every schedule of any parties: as long as nobody binds `x` anew in the run, at most
+one call in the whole history removes `x` successfully (the `renameat` away from it or the
+`unlinkat` of it), and every attempt after it is a lost race (`ENOENT`; a `renameat` may report
+`EXDEV`/`EBADF` about its target first). -/
+theorem C17_single_winner (s0 : Shared) (h0 : s0.log = []) (sched : List Nat) (x : Bytes × Bytes)
+    (hnr : ∀ e ∈ (runSched s0 sched).log, e.binds x = false) :
+    (∀ (i j : Nat) (e1 e2 : Event), (runSched s0 sched).log[i]? = some e1 → (runSched s0 sched).log[j]? = some e2 →
+      e1.removes x = true → e2.removes x = true → i = j) ∧
+    (∀ (i j : Nat) (e1 e2 : Event), i < j → (runSched s0 sched).log[i]? = some e1 → (runSched s0 sched).log[j]? = some e2 →
+      e1.removes x = true → e2.attempts x = true → e2.lost = true) :=
+  ⟨(Proofs.Parties.single_winner s0 h0 sched x hnr).2,
+   fun i j e1 e2 hij h1 h2 hr ha =>
+     Proofs.Parties.winnerFirst_get (Proofs.Parties.single_winner s0 h0 sched x hnr).1 i j e1 e2 hij h1 h2 hr ha⟩
+
+/-- ... and the loser reports it: an mdsort party in a schedule whose action list starts with a
+move/flag/flags action and all of whose renames found the source gone finishes with error = true
+(`C17_loser_reports_error` transported to the schedule). -/
+theorem C17_loser_in_schedule_reports_error (s0 : Shared) (hf : Proofs.Parties.Fresh s0) (sched : List Nat) (a : Nat)
+    (p0 ps : PState) (env : PEnv) (mh : Match) (rest : MatchList) (st : ExecSt)
+    (h0 : s0.parties[a]? = some p0) (hp : p0.prog = errOf (matchesExec env (mh :: rest) st))
+    (hty : mh.ty = .move ∨ mh.ty = .flag ∨ mh.ty = .flags)
+    (hs : (runSched s0 sched).parties[a]? = some ps)
+    (hlost : ∀ (i : Nat) (d1 : Handle) (n1 : Bytes) (d2 : Handle) (n2 : Bytes) (r : Res),
+      ps.trace[i]? = some (Call.renameat d1 n1 d2 n2, r) → r = Res.err "ENOENT")
+    (e : Bool) (hfin : ps.prog = .ret e) : e = true :=
+  Proofs.Parties.loser_reports_error s0 hf sched a p0 ps env mh rest st h0 hp hty hs hlost e hfin
+
+/-- `C17_never_touches_foreign` on schedules: whatever the other parties and the client do in
+between, every `unlinkat` argument and `renameat` source of an mdsort party is the name of the
+message it was given or a name it created itself, and every `renameat` target is a name it
+created itself. -/
+theorem C17_parties_never_touch_foreign (s0 : Shared) (hf : Proofs.Parties.Fresh s0) (sched : List Nat) (a : Nat)
+    (p0 ps : PState) (env : PEnv) (ml : MatchList) (st : ExecSt)
+    (h0 : s0.parties[a]? = some p0) (hp : p0.prog = errOf (matchesExec env ml st))
+    (hs : (runSched s0 sched).parties[a]? = some ps) :
+    ∀ i c r, ps.trace[i]? = some (c, r) →
+      (∀ d n, c = .unlinkat d n → n ∈ Proofs.ownNames st.ms.name ps.trace i) ∧
+      (∀ d1 n1 d2 n2, c = .renameat d1 n1 d2 n2 →
+        n1 ∈ Proofs.ownNames st.ms.name ps.trace i ∧ n2 ∈ createdNames (ps.trace.take i)) :=
+  Proofs.Parties.parties_never_touch_foreign s0 hf sched a p0 ps env ml st h0 hp hs
+
+/-- Exactly once under `H_iso`, for ANY number of parties each of which is a mover (an mdsort
+run on one message whose actions are all move / flag / flags: rename-based, one device, no copy)
+or the external client, on EVERY complete schedule that respects `H_iso` (`Hiso`: no call removes
+or binds an entry another party created and has neither committed nor rolled back, and no party
+renames such an entry of its own as if it were a message):
+every initial file that was not removed outright (`Event.destroys`: the client's delete, or a
+rename onto it) is bound to exactly one entry, and every entry is bound to an initial file with its
+initial content - no placeholder, no empty or partial file remains. -/
+theorem C17_exactly_once_partial_movers (s0 : Shared) (h0 : Proofs.Parties.StartOK s0) (sched : List Nat)
+    (hiso : Hiso s0 sched = true) (hq : (runSched s0 sched).quiescent = true) :
+    (∀ p0 n0 f, s0.fs.lookup p0 n0 = some f → (∀ e ∈ (runSched s0 sched).log, e.destroys f = false) →
+      ∃ p n, (runSched s0 sched).fs.lookup p n = some f ∧
+        ∀ p' n', (runSched s0 sched).fs.lookup p' n' = some f → p' = p ∧ n' = n) ∧
+    (∀ p n f, (runSched s0 sched).fs.lookup p n = some f →
+      (∃ p0 n0, s0.fs.lookup p0 n0 = some f) ∧ (runSched s0 sched).fs.file f = s0.fs.file f) :=
+  Proofs.Parties.exactly_once_movers s0 h0 sched hiso hq
+
+/-! ### non-vacuity: two movers racing for the message `a` and the client renaming `b`, round robin -/
+
+open Proofs.Parties.W in
+example : Proofs.Parties.StartOK m0 ∧ Hiso m0 schedM = true ∧ (runSched m0 schedM).quiescent = true ∧
+    (runSched m0 schedM).parties.map (·.result) = [some false, some true, some false] ∧
+    (runSched m0 schedM).fs.entries =
+      [(ofString "/m/cur", ofString "b:2,S", 1), (ofString "/d/new", ofString "7.1_1.h:2,", 0)] :=
+  ⟨m_startOK, m_iso, m_quiescent, m_results, m_final⟩
+
+open Proofs.Parties.W in
+/-- In that run nobody re-creates `new/a`, party 0 wins it and party 1 gets `ENOENT`. -/
+example : (∀ e ∈ (runSched m0 schedM).log, e.binds (ofString "/m/new", ofString "a") = false) ∧
+    ((runSched m0 schedM).log.filter (fun e => e.attempts (ofString "/m/new", ofString "a"))).map
+      (fun e => (e.party, e.res)) = [(0, .ok 0), (1, .err "ENOENT")] := by
+  refine ⟨?_, m_removals⟩
+  intro e he
+  have := List.all_eq_true.1 m_norebind e he
+  simpa using this
+
+/-! ## the full statement, without `H_iso`, is false (F14) -/
+
+/-- An mdsort party: an action list on one message, or a directory listing followed by the action
+list on every name found. -/
+def IsMdsortParty (ps : PState) : Prop :=
+  (∃ env ml st, ps.prog = errOf (matchesExec env ml st)) ∨
+  (∃ env md rule fuel e, ps.prog = scanExec env md rule fuel e)
+
+/-- The initial state of a system of mdsort parties and the client: nobody has started, the
+messages are pairwise different (different bodies), directory handles are valid. -/
+structure C17Start (s0 : Shared) : Prop where
+  fresh : Proofs.Parties.Fresh s0
+  parties : ∀ ps ∈ s0.parties, IsMdsortParty ps ∨ Proofs.Parties.IsClientParty ps
+  distinct : s0.fs.entries.Pairwise fun e1 e2 => isStage (s0.fs.content e1.2.2) (s0.fs.content e2.2.2) = false
+  dirsOk : ∀ ps ∈ s0.parties, ∀ (d : Handle) (p : Bytes), handlesDirPath ps.handles d = some p → (s0.fs.dir p).isSome
+
+/-- Exactly once, by content: every initial message has at most one entry holding a stage of it
+(a complete message with the same body), has one unless an entry holding a stage of it was removed
+outright, and every entry holds a stage of some initial message. -/
+def ExactlyOnce (s0 s : Shared) : Prop :=
+  (∀ e ∈ s0.fs.entries,
+    (stageEntries s.fs (s0.fs.content e.2.2)).length ≤ 1 ∧
+    ((stageEntries s.fs (s0.fs.content e.2.2)).length = 0 →
+      ∃ ev ∈ s.log, ∃ g, ev.destroys g = true ∧ isStage (s0.fs.content e.2.2) (s.fs.content g) = true)) ∧
+  (∀ e ∈ s.fs.entries, ∃ e0 ∈ s0.fs.entries, isStage (s0.fs.content e0.2.2) (s.fs.content e.2.2) = true)
+
+/-- The full-strength statement: exactly once on every complete schedule, without `H_iso`. -/
+def C17_exactly_once : Prop :=
+  ∀ (s0 : Shared) (sched : List Nat), C17Start s0 → (runSched s0 sched).quiescent = true →
+    ExactlyOnce s0 (runSched s0 sched)
+
+open Proofs.Parties.W in
+/-- F14: A = `label` on the message `new/a`, B1 = `move` of `a`, B2 = `move` of the name A created
+(what a listing of `new/` shows while A is at work); A runs up to and including its `fsync`, then
+B2 and B1 run to completion, then A resumes (its `unlinkat` of `a` gets `ENOENT`, it reports an
+error).  Both the original and A's labelled copy end up in `/d/new`: the message exists twice.
+The parties are the scripts themselves (`matchesExec`), evaluated by the kernel. -/
+theorem C17_exactly_once_false : ¬ C17_exactly_once := by
+  intro h
+  have hstart : C17Start s0 := by
+    refine ⟨Proofs.Parties.fresh_init _ _, ?_, ?_, ?_⟩
+    · intro ps hps
+      simp only [s0, Shared.init, List.map_cons, List.map_nil, List.mem_cons, List.not_mem_nil, or_false] at hps
+      rcases hps with rfl | rfl | rfl <;> exact .inl (.inl ⟨_, _, _, rfl⟩)
+    · show (fs.shared.entries).Pairwise _
+      decide +kernel
+    · intro ps hps d p hd
+      simp only [s0, Shared.init, List.map_cons, List.map_nil, List.mem_cons, List.not_mem_nil, or_false] at hps
+      have hh : ps.handles = dirH := by rcases hps with rfl | rfl | rfl <;> rfl
+      rw [hh] at hd
+      have hp : p = ofString "/m/new" := by
+        match d, hd with
+        | 0, hd => simpa [handlesDirPath, dirH] using hd.symm
+        | d + 1, hd => simp [handlesDirPath, dirH] at hd
+      subst hp
+      decide +kernel
+  have hone := ((h s0 sched hstart run_quiescent).1 (ofString "/m/new", ofString "a", 0) (by decide +kernel)).1
+  have hc : s0.fs.content 0 = content := by decide +kernel
+  rw [show ((ofString "/m/new", ofString "a", 0) : Bytes × Bytes × Nat).2.2 = 0 from rfl, hc, run_dup] at hone
+  exact absurd hone (by decide)
+
+open Proofs.Parties.W in
+/-- F14 as the design describes it, with a listing party: A = `label` on `new/a`, B = list `/m/new`
+and `move "/d"` every name found (`scanExec`); A runs up to and including its `fsync`, B lists the
+directory (sees the original and A's complete copy) and runs to completion, A resumes.  The run is
+complete and two entries hold a stage of the message. -/
+theorem C17_F14_listing :
+    (runSched t0 schedL).quiescent = true ∧ (stageEntries (runSched t0 schedL).fs content).length = 2 :=
+  ⟨runL_quiescent, runL_dup⟩
+
+open Proofs.Parties.W in
+/-- F13 on the model: A = `move "/d"` of `new/a` is preempted after the exclusive create of its
+placeholder in `/d/new`; C lists `/d/new` and moves what it finds to `/x`; A resumes.  Both report
+success; the message is in `/d/new` and an EMPTY file remains as a message in `/x/new`.  (C's first
+`readdir` is not isolated: `H_iso` excludes this schedule.) -/
+theorem C17_F13_empty_stray :
+    Hiso u0 schedU = false ∧
+    (runSched u0 schedU).quiescent = true ∧
+    (runSched u0 schedU).parties.map (·.result) = [some false, some false] ∧
+    (runSched u0 schedU).fs.entries = [(ofString "/d/new", nameA, 0), (ofString "/x/new", ofString "7.2_1.h:2,", 1)] ∧
+    (runSched u0 schedU).fs.content 1 = [] :=
+  ⟨runU_not_iso, runU_facts⟩
+
+open Proofs.Parties.W in
+/-- `H_iso` is what the counterexample of `C17_exactly_once_false` violates. -/
+theorem C17_F14_not_isolated : Hiso s0 sched = false := run_not_iso
 
 end Mdsort.Props
